@@ -1,12 +1,22 @@
-//! Vec-backed stand-ins for std::collections::{HashMap, HashSet}
-//! (std's SipHash tables do not get through CBMC: a 2-entry map did not
-//! finish in 10 minutes). Map semantics are exact. Iteration order is
-//! HashMap's contract -- unspecified -- and is modelled as: insertion order
-//! rotated by a nondeterministic offset and optionally reversed, when
-//! `ORDER_NONDET` is switched on by the harness (off: insertion order).
+//! Fixed-capacity, heap-free stand-ins for std::collections::{HashMap, HashSet}.
+//!
+//! std's SipHash tables do not get through CBMC (a 2-entry map did not finish
+//! in 10 minutes), and a Vec-backed map whose number of entries depends on
+//! symbolic data becomes a symbolic-size heap object that CBMC hands to its
+//! array theory (> 20 GB). So a map is `CAP` inline slots plus a length; every
+//! access is a loop over the constant slot indices. More than `CAP` entries is
+//! outside the bound (the path is cut, and reported by the cover witnesses if
+//! that makes a harness vacuous).
+//!
+//! Map semantics are exact. Iteration order is HashMap's contract --
+//! unspecified -- and is modelled as: insertion order rotated by a
+//! nondeterministic offset and optionally reversed, when `ORDER_NONDET` is
+//! switched on by the harness (off: insertion order).
 use core::borrow::Borrow;
 
 pub use std::collections::{BTreeMap, BTreeSet, VecDeque};
+
+pub const CAP: usize = 4;
 
 pub static mut ORDER_NONDET: bool = false;
 
@@ -19,7 +29,7 @@ pub fn set_order_nondet(on: bool) {
 #[inline]
 fn pick_order(len: usize) -> (usize, bool) {
     if len > 1 && unsafe { ORDER_NONDET } {
-        let start: usize = kani::any();
+        let start: usize = kani::any::<u8>() as usize;
         kani::assume(start < len);
         let rev: bool = kani::any();
         (start, rev)
@@ -28,9 +38,9 @@ fn pick_order(len: usize) -> (usize, bool) {
     }
 }
 
+/// Position of the i-th element of the rotated/reversed order, without `%`.
 #[inline]
 fn pos(len: usize, start: usize, rev: bool, i: usize) -> usize {
-    // i-th element of the rotated/reversed order, without `%`.
     let j = if rev { len - 1 - i } else { i };
     let p = start + j;
     if p >= len {
@@ -40,67 +50,110 @@ fn pos(len: usize, start: usize, rev: bool, i: usize) -> usize {
     }
 }
 
-#[derive(Clone)]
+#[inline]
+fn over_capacity() -> ! {
+    kani::assume(false);
+    unreachable!()
+}
+
+/// The slots live in ONE constant-size heap object: moving a map (into an
+/// Option, a Result, a struct returned by value) then moves a pointer. With the
+/// slots inline, rustc's moves of the enclosing structs became memcpy over
+/// byte arrays, which CBMC's array theory could not digest (24 GB in minutes).
+pub struct Inner<K, V> {
+    s: [Option<(K, V)>; CAP],
+    len: usize,
+}
 pub struct HashMap<K, V> {
-    e: Vec<(K, V)>,
+    b: Box<Inner<K, V>>,
 }
 
 impl<K, V> Default for HashMap<K, V> {
     fn default() -> Self {
-        HashMap { e: Vec::new() }
+        HashMap { b: Box::new(Inner { s: [None, None, None, None], len: 0 }) }
+    }
+}
+
+impl<K: Clone, V: Clone> Clone for HashMap<K, V> {
+    fn clone(&self) -> Self {
+        HashMap {
+            b: Box::new(Inner {
+                s: [self.b.s[0].clone(), self.b.s[1].clone(), self.b.s[2].clone(), self.b.s[3].clone()],
+                len: self.b.len,
+            }),
+        }
     }
 }
 
 impl<K: Eq, V> HashMap<K, V> {
     pub fn new() -> Self {
-        HashMap { e: Vec::new() }
+        Self::default()
     }
-    pub fn with_capacity(n: usize) -> Self {
-        HashMap { e: Vec::with_capacity(n) }
+    pub fn with_capacity(_n: usize) -> Self {
+        Self::default()
     }
     pub fn len(&self) -> usize {
-        self.e.len()
+        self.b.len
     }
     pub fn is_empty(&self) -> bool {
-        self.e.is_empty()
+        self.b.len == 0
     }
     pub fn clear(&mut self) {
-        self.e.clear()
+        *self = Self::default();
     }
-    // NOTE: no lookup returns a symbolic *index* that is then used to
-    // subscript the Vec -- symbolic subscripts put the heap array into CBMC's
-    // array theory (tens of GB in post-processing). References are returned
-    // straight out of the scan loop instead.
-    fn find<Q: ?Sized + Eq>(&self, k: &Q) -> Option<usize>
-    where
-        K: Borrow<Q>,
-    {
+    fn push_back(&mut self, k: K, v: V) {
+        // constant subscripts only
         let mut i = 0;
-        while i < self.e.len() {
-            if self.e[i].0.borrow() == k {
-                return Some(i);
+        while i < CAP {
+            if i == self.b.len {
+                self.b.s[i] = Some((k, v));
+                self.b.len += 1;
+                return;
             }
             i += 1;
         }
-        None
+        over_capacity();
     }
     pub fn insert(&mut self, k: K, v: V) -> Option<V> {
-        for kv in self.e.iter_mut() {
-            if kv.0 == k {
-                return Some(core::mem::replace(&mut kv.1, v));
+        let mut i = 0;
+        while i < CAP {
+            if let Some(kv) = &mut self.b.s[i] {
+                if kv.0 == k {
+                    return Some(core::mem::replace(&mut kv.1, v));
+                }
             }
+            i += 1;
         }
-        self.e.push((k, v));
+        self.push_back(k, v);
         None
     }
     pub fn get<Q: ?Sized + Eq>(&self, k: &Q) -> Option<&V>
     where
         K: Borrow<Q>,
     {
-        for kv in self.e.iter() {
-            if kv.0.borrow() == k {
-                return Some(&kv.1);
+        let mut i = 0;
+        while i < CAP {
+            if let Some(kv) = &self.b.s[i] {
+                if kv.0.borrow() == k {
+                    return Some(&kv.1);
+                }
             }
+            i += 1;
+        }
+        None
+    }
+    pub fn get_key_value<Q: ?Sized + Eq>(&self, k: &Q) -> Option<(&K, &V)>
+    where
+        K: Borrow<Q>,
+    {
+        let mut i = 0;
+        while i < CAP {
+            if let Some(kv) = &self.b.s[i] {
+                if kv.0.borrow() == k {
+                    return Some((&kv.0, &kv.1));
+                }
+            }
+            i += 1;
         }
         None
     }
@@ -108,9 +161,11 @@ impl<K: Eq, V> HashMap<K, V> {
     where
         K: Borrow<Q>,
     {
-        for kv in self.e.iter_mut() {
-            if kv.0.borrow() == k {
-                return Some(&mut kv.1);
+        for slot in self.b.s.iter_mut() {
+            if let Some(kv) = slot {
+                if kv.0.borrow() == k {
+                    return Some(&mut kv.1);
+                }
             }
         }
         None
@@ -119,25 +174,41 @@ impl<K: Eq, V> HashMap<K, V> {
     where
         K: Borrow<Q>,
     {
-        for kv in self.e.iter() {
-            if kv.0.borrow() == k {
-                return true;
-            }
-        }
-        false
+        self.get(k).is_some()
     }
     pub fn remove<Q: ?Sized + Eq>(&mut self, k: &Q) -> Option<V>
     where
         K: Borrow<Q>,
     {
-        match self.find(k) {
-            Some(i) => Some(self.e.remove(i).1),
+        let mut found: Option<(K, V)> = None;
+        let mut i = 0;
+        while i < CAP {
+            if found.is_none() {
+                let hit = match &self.b.s[i] {
+                    Some(kv) => kv.0.borrow() == k,
+                    None => false,
+                };
+                if hit {
+                    found = self.b.s[i].take();
+                }
+            } else {
+                // shift the rest down to keep insertion order dense
+                let nxt = self.b.s[i].take();
+                self.b.s[i - 1] = nxt;
+            }
+            i += 1;
+        }
+        match found {
+            Some(kv) => {
+                self.b.len -= 1;
+                Some(kv.1)
+            }
             None => None,
         }
     }
     pub fn iter(&self) -> Iter<'_, K, V> {
-        let (start, rev) = pick_order(self.e.len());
-        Iter { e: &self.e, start, rev, i: 0 }
+        let (start, rev) = pick_order(self.b.len);
+        Iter { m: self, start, rev, i: 0 }
     }
     pub fn keys(&self) -> Keys<'_, K, V> {
         Keys(self.iter())
@@ -145,12 +216,12 @@ impl<K: Eq, V> HashMap<K, V> {
     pub fn values(&self) -> Values<'_, K, V> {
         Values(self.iter())
     }
-    pub fn iter_mut(&mut self) -> core::slice::IterMut<'_, (K, V)> {
+    pub fn iter_mut(&mut self) -> impl Iterator<Item = (&K, &mut V)> {
         // order-insensitive uses only (acb mutates every value in place)
-        self.e.iter_mut()
+        self.b.s.iter_mut().filter_map(|s| s.as_mut().map(|kv| (&kv.0, &mut kv.1)))
     }
     pub fn values_mut(&mut self) -> impl Iterator<Item = &mut V> {
-        self.e.iter_mut().map(|kv| &mut kv.1)
+        self.b.s.iter_mut().filter_map(|s| s.as_mut().map(|kv| &mut kv.1))
     }
     pub fn entry(&mut self, k: K) -> Entry<'_, K, V> {
         Entry { m: self, k }
@@ -164,7 +235,16 @@ impl<K: Eq, V> HashMap<K, V> {
         core::mem::take(self).into_iter()
     }
     pub fn retain<F: FnMut(&K, &mut V) -> bool>(&mut self, mut f: F) {
-        self.e.retain_mut(|kv| f(&kv.0, &mut kv.1));
+        let old = core::mem::take(self);
+        let inner = *old.b;
+        let [a, b, c, d] = inner.s;
+        for slot in [a, b, c, d] {
+            if let Some((k, mut v)) = slot {
+                if f(&k, &mut v) {
+                    self.push_back(k, v);
+                }
+            }
+        }
     }
     pub fn into_keys(self) -> impl Iterator<Item = K> {
         self.into_iter().map(|kv| kv.0)
@@ -172,16 +252,16 @@ impl<K: Eq, V> HashMap<K, V> {
     pub fn into_values(self) -> impl Iterator<Item = V> {
         self.into_iter().map(|kv| kv.1)
     }
-    pub fn get_key_value<Q: ?Sized + Eq>(&self, k: &Q) -> Option<(&K, &V)>
-    where
-        K: Borrow<Q>,
-    {
-        for kv in self.e.iter() {
-            if kv.0.borrow() == k {
-                return Some((&kv.0, &kv.1));
-            }
+    #[inline]
+    fn at(&self, p: usize) -> Option<&(K, V)> {
+        // constant subscripts: p is matched against 0..CAP
+        match p {
+            0 => self.b.s[0].as_ref(),
+            1 => self.b.s[1].as_ref(),
+            2 => self.b.s[2].as_ref(),
+            3 => self.b.s[3].as_ref(),
+            _ => None,
         }
-        None
     }
 }
 
@@ -195,15 +275,19 @@ impl<'a, K: Eq, V> Entry<'a, K, V> {
     }
     pub fn or_insert_with<F: FnOnce() -> V>(self, f: F) -> &'a mut V {
         if !self.m.contains_key(&self.k) {
-            self.m.e.push((self.k, f()));
-            return &mut self.m.e.last_mut().unwrap().1;
-        }
-        for kv in self.m.e.iter_mut() {
-            if kv.0 == self.k {
-                return &mut kv.1;
+            self.m.push_back(self.k, f());
+            let mut i = CAP;
+            while i > 0 {
+                i -= 1;
+                if i + 1 == self.m.b.len {
+                    return &mut self.m.b.s[i].as_mut().unwrap().1;
+                }
             }
+            unreachable!()
+        } else {
+            let k = self.k;
+            self.m.get_mut(&k).unwrap()
         }
-        unreachable!()
     }
     pub fn or_default(self) -> &'a mut V
     where
@@ -214,29 +298,29 @@ impl<'a, K: Eq, V> Entry<'a, K, V> {
 }
 
 pub struct Iter<'a, K, V> {
-    e: &'a Vec<(K, V)>,
+    m: &'a HashMap<K, V>,
     start: usize,
     rev: bool,
     i: usize,
 }
-impl<'a, K, V> Iterator for Iter<'a, K, V> {
+impl<'a, K: Eq, V> Iterator for Iter<'a, K, V> {
     type Item = (&'a K, &'a V);
     fn next(&mut self) -> Option<Self::Item> {
-        if self.i >= self.e.len() {
+        if self.i >= self.m.b.len {
             return None;
         }
-        let p = pos(self.e.len(), self.start, self.rev, self.i);
+        let p = pos(self.m.b.len, self.start, self.rev, self.i);
         self.i += 1;
-        let kv = &self.e[p];
-        Some((&kv.0, &kv.1))
+        self.m.at(p).map(|kv| (&kv.0, &kv.1))
     }
+    // lower bound 0 on purpose: `collect()` then starts from Vec's constant
+    // minimum capacity instead of a symbolic with_capacity(len)
     fn size_hint(&self) -> (usize, Option<usize>) {
-        let n = self.e.len() - self.i;
-        (n, Some(n))
+        (0, Some(CAP))
     }
 }
 pub struct Keys<'a, K, V>(Iter<'a, K, V>);
-impl<'a, K, V> Iterator for Keys<'a, K, V> {
+impl<'a, K: Eq, V> Iterator for Keys<'a, K, V> {
     type Item = &'a K;
     fn next(&mut self) -> Option<&'a K> {
         self.0.next().map(|kv| kv.0)
@@ -246,7 +330,7 @@ impl<'a, K, V> Iterator for Keys<'a, K, V> {
     }
 }
 pub struct Values<'a, K, V>(Iter<'a, K, V>);
-impl<'a, K, V> Iterator for Values<'a, K, V> {
+impl<'a, K: Eq, V> Iterator for Values<'a, K, V> {
     type Item = &'a V;
     fn next(&mut self) -> Option<&'a V> {
         self.0.next().map(|kv| kv.1)
@@ -263,16 +347,9 @@ impl<'a, K: Eq, V> IntoIterator for &'a HashMap<K, V> {
         self.iter()
     }
 }
-impl<'a, K: Eq, V> IntoIterator for &'a mut HashMap<K, V> {
-    type Item = &'a mut (K, V);
-    type IntoIter = core::slice::IterMut<'a, (K, V)>;
-    fn into_iter(self) -> Self::IntoIter {
-        self.e.iter_mut()
-    }
-}
 
 pub struct IntoIter<K, V> {
-    e: Vec<Option<(K, V)>>,
+    b: Box<Inner<K, V>>,
     start: usize,
     rev: bool,
     i: usize,
@@ -280,20 +357,29 @@ pub struct IntoIter<K, V> {
 impl<K, V> Iterator for IntoIter<K, V> {
     type Item = (K, V);
     fn next(&mut self) -> Option<(K, V)> {
-        if self.i >= self.e.len() {
+        if self.i >= self.b.len {
             return None;
         }
-        let p = pos(self.e.len(), self.start, self.rev, self.i);
+        let p = pos(self.b.len, self.start, self.rev, self.i);
         self.i += 1;
-        self.e[p].take()
+        match p {
+            0 => self.b.s[0].take(),
+            1 => self.b.s[1].take(),
+            2 => self.b.s[2].take(),
+            3 => self.b.s[3].take(),
+            _ => None,
+        }
+    }
+    fn size_hint(&self) -> (usize, Option<usize>) {
+        (0, Some(CAP))
     }
 }
 impl<K: Eq, V> IntoIterator for HashMap<K, V> {
     type Item = (K, V);
     type IntoIter = IntoIter<K, V>;
     fn into_iter(self) -> IntoIter<K, V> {
-        let (start, rev) = pick_order(self.e.len());
-        IntoIter { e: self.e.into_iter().map(Some).collect(), start, rev, i: 0 }
+        let (start, rev) = pick_order(self.b.len);
+        IntoIter { b: self.b, start, rev, i: 0 }
     }
 }
 impl<K: Eq, V> FromIterator<(K, V)> for HashMap<K, V> {
@@ -316,14 +402,18 @@ impl<K: Eq + Borrow<Q>, Q: ?Sized + Eq, V> core::ops::Index<&Q> for HashMap<K, V
 }
 impl<K: Eq, V: PartialEq> PartialEq for HashMap<K, V> {
     fn eq(&self, o: &Self) -> bool {
-        if self.e.len() != o.e.len() {
+        if self.b.len != o.b.len {
             return false;
         }
-        for (k, v) in &self.e {
-            match o.get(k) {
-                Some(ov) if ov == v => {}
-                _ => return false,
+        let mut i = 0;
+        while i < CAP {
+            if let Some(kv) = &self.b.s[i] {
+                match o.get(&kv.0) {
+                    Some(ov) if *ov == kv.1 => {}
+                    _ => return false,
+                }
             }
+            i += 1;
         }
         true
     }
@@ -331,11 +421,10 @@ impl<K: Eq, V: PartialEq> PartialEq for HashMap<K, V> {
 impl<K: Eq, V: Eq> Eq for HashMap<K, V> {}
 impl<K: core::fmt::Debug, V: core::fmt::Debug> core::fmt::Debug for HashMap<K, V> {
     fn fmt(&self, f: &mut core::fmt::Formatter<'_>) -> core::fmt::Result {
-        f.debug_map().entries(self.e.iter().map(|kv| (&kv.0, &kv.1))).finish()
+        f.debug_map().entries(self.b.s.iter().flatten().map(|kv| (&kv.0, &kv.1))).finish()
     }
 }
 
-#[derive(Clone)]
 pub struct HashSet<K> {
     m: HashMap<K, ()>,
 }
@@ -344,12 +433,17 @@ impl<K> Default for HashSet<K> {
         HashSet { m: HashMap::default() }
     }
 }
+impl<K: Clone> Clone for HashSet<K> {
+    fn clone(&self) -> Self {
+        HashSet { m: self.m.clone() }
+    }
+}
 impl<K: Eq> HashSet<K> {
     pub fn new() -> Self {
-        HashSet { m: HashMap::new() }
+        Self::default()
     }
-    pub fn with_capacity(n: usize) -> Self {
-        HashSet { m: HashMap::with_capacity(n) }
+    pub fn with_capacity(_n: usize) -> Self {
+        Self::default()
     }
     pub fn len(&self) -> usize {
         self.m.len()
@@ -364,7 +458,7 @@ impl<K: Eq> HashSet<K> {
         if self.m.contains_key(&k) {
             false
         } else {
-            self.m.e.push((k, ()));
+            self.m.push_back(k, ());
             true
         }
     }
@@ -373,6 +467,12 @@ impl<K: Eq> HashSet<K> {
         K: Borrow<Q>,
     {
         self.m.contains_key(k)
+    }
+    pub fn get<Q: ?Sized + Eq>(&self, k: &Q) -> Option<&K>
+    where
+        K: Borrow<Q>,
+    {
+        self.m.get_key_value(k).map(|kv| kv.0)
     }
     pub fn remove<Q: ?Sized + Eq>(&mut self, k: &Q) -> bool
     where
@@ -383,17 +483,11 @@ impl<K: Eq> HashSet<K> {
     pub fn iter(&self) -> Keys<'_, K, ()> {
         self.m.keys()
     }
-    pub fn get<Q: ?Sized + Eq>(&self, k: &Q) -> Option<&K>
-    where
-        K: Borrow<Q>,
-    {
-        self.m.get_key_value(k).map(|kv| kv.0)
-    }
     pub fn drain(&mut self) -> SetIntoIter<K> {
         core::mem::take(self).into_iter()
     }
     pub fn retain<F: FnMut(&K) -> bool>(&mut self, mut f: F) {
-        self.m.e.retain(|kv| f(&kv.0));
+        self.m.retain(|k, _| f(k));
     }
     pub fn extend<I: IntoIterator<Item = K>>(&mut self, it: I) {
         for k in it {
@@ -413,6 +507,9 @@ impl<K> Iterator for SetIntoIter<K> {
     type Item = K;
     fn next(&mut self) -> Option<K> {
         self.0.next().map(|kv| kv.0)
+    }
+    fn size_hint(&self) -> (usize, Option<usize>) {
+        (0, Some(CAP))
     }
 }
 impl<K: Eq> IntoIterator for HashSet<K> {
@@ -442,6 +539,6 @@ impl<K: Eq> PartialEq for HashSet<K> {
 impl<K: Eq> Eq for HashSet<K> {}
 impl<K: core::fmt::Debug> core::fmt::Debug for HashSet<K> {
     fn fmt(&self, f: &mut core::fmt::Formatter<'_>) -> core::fmt::Result {
-        f.debug_set().entries(self.m.e.iter().map(|kv| &kv.0)).finish()
+        f.debug_set().entries(self.m.b.s.iter().flatten().map(|kv| &kv.0)).finish()
     }
 }
